@@ -13,6 +13,8 @@
   R7 reindex pipeline (shared with C07)
   R8 merge cast       _check_axes_merge leaves an operand uncast only when its kind is the common kind, and casts with a full-width
                       dtype (never a bare kind character: 'f' as a dtype is float32, 'i' is int32)
+  R10 union direction every pair of directions (increasing / decreasing / single label) x relative placement of the ranges: two monotonic
+                      operands with compatible directions are merged by np.union1d, reversed iff the common direction is decreasing
   R9 common kind      _get_cast_kind evaluated on every pair of kinds: equal -> same, object wins, float over int
 """
 from .. import terms as T
@@ -543,6 +545,63 @@ def rule_merge_cast(ctx, r8='R8', r9='R9'):
                              'by the cast before the union / intersection' % (k0, k1, got, want))
 
 
+def rule_union_direction(ctx):
+    """R10: "inputs that are all sorted in the same direction give a result sorted in that direction".
+    Axis.union is evaluated for every pair of directions (increasing / decreasing / single label, which fits either direction) and
+    three relative placements of the two label ranges; the end labels are the only values the code may look at (comparisons of
+    values[0] / values[-1]), so a finite set of orderings decides the branch."""
+    import itertools
+    from ..rules import bool_eval
+    ctx.rule('R10', 'Axis.union: two monotonic operands sorted the same way give np.union1d, reversed iff the common direction is decreasing', 20)
+    fi = ctx.fn(AX + 'Axis.union')
+    A, B, cm = merge_operands(ctx, fi)
+    a0, a1, b0, b1 = ('sub', A, const(0)), ('sub', A, const(-1)), ('sub', B, const(0)), ('sub', B, const(-1))
+    ends = {'inc': (0, 3), 'dec': (3, 0), 'single': (1, 1)}
+    for da, db, shift in itertools.product(['inc', 'dec', 'single'], ['inc', 'dec', 'single'], [-10, 1, 10]):
+        atoms = {a0: ends[da][0], a1: ends[da][1], b0: ends[db][0] + shift, b1: ends[db][1] + shift}
+
+        def oracle(atom, st, atoms=atoms):
+            if any(x in atoms for x in T.subterms(atom)):
+                return bool_eval(atom, atoms)
+            if atom == ('item', cm, 2):
+                return True
+            if atom[0] == 'call' and T.call_name(atom) == 'is_monotonic':
+                return True
+            if atom[0] == 'cmp' and atom[1] == '==' and atom[3] == const(0) and atom[2][0] == 'attr' and atom[2][2] == 'size':
+                return False
+            if atom[0] == 'call' and T.dotted(atom[1]) == 'np.all':
+                return False
+            return None
+        ev = run(ctx, fi, oracle=oracle)
+        inst = 'A %s, B %s, B shifted by %d' % (da, db, shift)
+        rets = ret_paths(ev)
+        # paths that still depend on an undecided end comparison would show up as extra forks: all must satisfy the clause
+        mixed = set((da, db)) == set(('inc', 'dec'))
+        ok = True
+        for p in rets:
+            v = p.value
+            undec = [a for a, pol in p.guards if any(x in atoms for x in T.subterms(a)) and bool_eval(a, atoms) is None]
+            if undec:
+                ctx.undecide('R10', '%s: guard %s is not decided by the order of the end labels' % (inst, T.show(undec[0])[:100]))
+                ok = False
+                continue
+            if mixed:
+                continue
+            u = [c for c in T.subterms(v) if c[0] == 'call' and T.dotted(c[1]) in ('np.union1d', 'numpy.union1d')]
+            rev = [x for x in T.subterms(v) if x[0] == 'sub' and x[2][0] == 'slice' and x[2][3] == const(-1) and u and T.contains(x[1], u[0])]
+            want_rev = 'dec' in (da, db)
+            if not u:
+                ctx.violated('R10', fi, 'union of two operands sorted the same way', 'with %s both operands are monotonic in compatible directions, but the labels are '
+                             'concatenated instead of merged in order (the result is not sorted): %s' % (inst, T.show(v)[:100]), node=p.node)
+                ok = False
+            elif (da, db) != ('single', 'single') and bool(rev) != want_rev:
+                ctx.violated('R10', fi, 'direction of the sorted union', 'with %s the merged labels must be %s, but np.union1d (ascending) is %s' % (
+                    inst, 'decreasing' if want_rev else 'increasing', 'reversed' if rev else 'not reversed'), node=p.node)
+                ok = False
+        if ok:
+            ctx.holds('R10', inst)
+
+
 def rule_env(ctx):
     ctx.rule('R6', 'NumPy names reachable from align() resolve', 1)
     npapi.check_reachable(ctx, 'R6', [ctx.fn(AL + 'align'), ctx.fn(AX + 'Axis.union'), ctx.fn(AX + 'Axis.intersection')], depth=3)
@@ -554,6 +613,7 @@ def check(ctx):
     rule_align(ctx)
     rule_sort_ownership(ctx)
     rule_merge_cast(ctx)
+    rule_union_direction(ctx)
     rule_env(ctx)
     # the reindex step that align() delegates to (each input keeps its data at its labels, NaN elsewhere)
     from . import c07
